@@ -642,7 +642,7 @@ def read_rel_sets(data):
     return out
 
 
-def traverse_and_save(deck_bytes, rng, ctx, blame=None):
+def traverse_and_save(deck_bytes, rng, ctx, blame=None, checkpoint=None):
     """`blame`: (member name, list) - after every call the canonical form of that part is compared with what it was and
     the accessor that changed it is appended to the list (used only to explain a difference already found)"""
     from pptx import Presentation
@@ -674,7 +674,7 @@ def traverse_and_save(deck_bytes, rng, ctx, blame=None):
             getattr(obj, name)
         return v
 
-    if rng.random() < 0.5:
+    if (rng.random() < 0.5) if checkpoint is None else checkpoint:
         prs.save(io.BytesIO())         # a checkpoint save before anything has been read
         ctx.count("checkpoint-save-before-reading")
     rounds = rng.choice([1, 1, 2])
@@ -689,14 +689,14 @@ def traverse_and_save(deck_bytes, rng, ctx, blame=None):
     return buf.getvalue()
 
 
-def end_to_end(ctx, label, data, lines, metas):
+def end_to_end(ctx, label, data, lines, metas, checkpoint=None):
     from pptx import Presentation
 
     rng = random.Random(f"c12-e2e-{ctx.seed}-{label}")
     a = io.BytesIO()
     Presentation(io.BytesIO(data)).save(a)
     pa = read_package(a.getvalue())
-    saved = traverse_and_save(data, rng, ctx)
+    saved = traverse_and_save(data, rng, ctx, checkpoint=checkpoint)
     names = zipfile.ZipFile(io.BytesIO(saved)).namelist()
     if len(set(names)) != len(names):
         dup = sorted(n for n in set(names) if names.count(n) > 1)
@@ -741,7 +741,7 @@ def end_to_end(ctx, label, data, lines, metas):
         if not same:
             who = []
             try:
-                traverse_and_save(data, random.Random(f"c12-e2e-{ctx.seed}-{label}"), ctx, blame=(ma, who))
+                traverse_and_save(data, random.Random(f"c12-e2e-{ctx.seed}-{label}"), ctx, blame=(ma, who), checkpoint=checkpoint)
             except Exception:  # noqa
                 pass
             ctx.fail("e2e:xml-part" + (":" + who[0] if who else ""), f"{label}: {ma} changed by reading the presentation (beyond empty attribute-less containers): "
@@ -819,6 +819,9 @@ def correspond(ctx):
         rd = renumber_slides(b3.getvalue(), rng)
         if rd is not None:
             end_to_end(ctx, f"generated-deck(slides renumbered#{k})", rd, lines, metas)
+            # the same deck saved once BEFORE anything is read (names still as the file gave them), read (the slide parts
+            # are renamed on first access), saved again: what the first save remembered must not be written the second time
+            end_to_end(ctx, f"generated-deck(slides renumbered#{k}, saved before reading)", rd, lines, metas, checkpoint=True)
             ctx.count("renumbered-decks")
     for lab, data in irregular_variants(rng):
         try:
@@ -832,7 +835,7 @@ def correspond(ctx):
             end_to_end(ctx, d.name, d.read_bytes(), lines, metas)
             rd = renumber_slides(d.read_bytes(), rng)
             if rd is not None and rng.random() < (0.5 if ctx.quick else 1.0):
-                end_to_end(ctx, d.name + "(slides renumbered)", rd, lines, metas)
+                end_to_end(ctx, d.name + "(slides renumbered)", rd, lines, metas, checkpoint=True)
                 ctx.count("renumbered-decks")
         except Exception as e:  # noqa
             ctx.count(f"e2e-aborted:{type(e).__name__}")
